@@ -123,7 +123,14 @@ impl StringPoolBuilder {
         for (length, refcount) in self.lengths_and_refcounts.into_iter() {
             let mut buffer = vec![0u8; length as usize];
             reader.read_exact(&mut buffer)?;
-            strings.push((self.codepage.decode(&buffer), refcount));
+            // An unused entry may still carry stale text in a file written by
+            // another tool; unused entries are kept empty in memory.
+            let string = if refcount == 0 {
+                String::new()
+            } else {
+                self.codepage.decode(&buffer)
+            };
+            strings.push((string, refcount));
         }
         Ok(StringPool {
             codepage: self.codepage,
